@@ -424,7 +424,7 @@ def main(run, replay=None):
         "The theorems are about coq/Model/TopologyM.v; the tie to Domain.todict/export/from_file is the correspondence run of this check, "
         "through real HDF5 files in the scratch directory.",
         "Exportable domain: built from n-cube patches by join (or one patch), distinct logical patch names without '|', no mapping called "
-        "'None', an external boundary with at least two faces (a domain closed in every direction is refused by export: None.todict()).",
+        "'None', an external boundary that is empty or has at least two faces (a domain closed in every direction is exported with an empty face list since /repo's fix of Domain.todict; before, None.todict() raised).",
         "str(int) / int(str) on axis, ext and dim and the YAML float round trip are trusted (the oracle compares float.hex before / after).",
         "Orientation is not part of the file format: proved absent (C15_roundtrip_orientation_refuted), the round-trip theorem is stated "
         "modulo orientation (C15_roundtrip_partial).",
